@@ -52,6 +52,8 @@ extern long long g_last_got;
 extern int g_rank, g_nprocs;            /* harness sets: 0 <= g_rank < g_nprocs */
 extern long long g_agreed_ll[G_COLL_MAX]; /* value every rank receives from the i-th collective (MAX/MIN/Bcast) */
 extern int g_get_count;                 /* what MPI_Get_count reports (harness: in [0,count]) ; -1 = echo count */
+extern int g_full_reads;                /* reads are never short */
+//                 /* what MPI_Get_count reports (harness: in [0,count]) ; -1 = echo count */
 
 /* swap parity of user buffers (C13): ncmpii_in_swapn is real code, nothing modelled here */
 
